@@ -1,3 +1,4 @@
+import Varint.Bridge.Delta
 import Varint.Bridge.RLE
 import Varint.Lemmas.Adaptive
 import Varint.Bridge.Sizes
@@ -133,6 +134,17 @@ theorem c_rle_encoder_within_predicted_size (xs : List Nat) (hx : ∀ x ∈ xs, 
     Varint.Bridge.RLE.rleAnalyze_eq xs hx (by omega) fuel (by omega), RLE.enc_length xs, ?_, ?_⟩
   · rw [Varint.Bridge.storesFrom_fst, RLE.enc_length]
   · rw [← RLE.enc_length]; exact (c_rle_extent_le_max xs hn).1
+
+/-- **on the machine translation of `varintDeltaEncodeUnsigned`**: the encoder stores only below the length it
+    returns, and that length is within the C's own `varintDeltaMaxEncodedSize(count)` -/
+theorem c_delta_unsigned_within_max (xs : List Nat) (hx : ∀ x ∈ xs, x < 2 ^ 64) (hn : xs.length < 2 ^ 56) (fuel : Nat)
+    (hf : xs.length + 9 ≤ fuel) :
+    ∃ n stores, Varint.Gen.C.deltaEncodeUnsigned fuel (Varint.Bridge.Tagged.bufOf xs) xs.length = some (n, stores) ∧
+      (∀ p ∈ stores, p.1 < n) ∧ n ≤ Varint.Gen.C.deltaMaxEncodedSize xs.length := by
+  obtain ⟨stores, h1, h2⟩ := Varint.Bridge.Delta.deltaEncodeUnsigned_eq xs hx (by omega) fuel hf
+  refine ⟨_, stores, h1, h2.2.2.1, ?_⟩
+  rw [Varint.Bridge.Sizes.deltaMaxEncodedSize_eq _ (by omega)]
+  exact Delta.encU_length_le xs hx
 
 /-- adaptive: whatever is selected (every outcome of the float comparisons) fits varintAdaptiveMaxSize(count) -/
 theorem adaptive_extent_le_max (φ : Adaptive.FloatPreds) (xs : List Nat) (hne : xs ≠ []) (hx : ∀ x ∈ xs, x < 2 ^ 64)
